@@ -195,13 +195,17 @@ func (kgdb *KVInterfaceGDB) DelEdge(eid string) error {
 	skey := SrcEdgeKey(kgdb.graph, sid, did, eid, label, etype)
 	dkey := DstEdgeKey(kgdb.graph, sid, did, eid, label, etype)
 
-	if err := kgdb.kvg.kv.Delete(ekey); err != nil {
-		return err
-	}
-	if err := kgdb.kvg.kv.Delete(skey); err != nil {
-		return err
-	}
-	if err := kgdb.kvg.kv.Delete(dkey); err != nil {
+	// one transaction: a crash must not leave adjacency entries of a missing edge
+	err := kgdb.kvg.kv.Update(func(tx kvi.KVTransaction) error {
+		if err := tx.Delete(ekey); err != nil {
+			return err
+		}
+		if err := tx.Delete(skey); err != nil {
+			return err
+		}
+		return tx.Delete(dkey)
+	})
+	if err != nil {
 		return err
 	}
 	kgdb.kvg.ts.Touch(kgdb.graph)
